@@ -120,6 +120,23 @@ def run(ctx):
         fall = [p for p in v.paths(max_visits=1) if not any(e.kind == 'return' for e in v.path_events(p)) and p.exit not in ('cut', 'noreturn')]
         ctx.check(okb and all(p.exit == 'throw' for p in fall) and bool(fall), 'R2', 'parse_bool: the eight literals or an exception', where(pb[0]), 'literals %s' % sorted(lits & {'yes', 'on', 'true', '1', 'no', 'off', 'false', '0'}),
                   key='R2|parse_bool|rejection')
+        # each returning path: the last literal list iterated before the return decides the value (true words -> true, false words -> false)
+        TRUE_W, FALSE_W = {'yes', 'on', 'true', '1'}, {'no', 'off', 'false', '0'}
+        assoc = set()
+        for p in v.paths(max_visits=2):
+            if p.exit not in ('return', 'end'):
+                continue
+            evs = v.path_events(p)
+            ret = [e for e in evs if e.kind == 'return' and e.val is not None]
+            lists = [frozenset(x[1] for x in ex.subterms(e.rhs) if x[0] == 'str') for e in evs if e.kind == 'assign' and any(x[0] == 'str' for x in ex.subterms(e.rhs))]
+            lists = [l for l in lists if l & (TRUE_W | FALSE_W)]
+            if ret and lists:
+                rv = ret[-1].val
+                while rv[0] in ('cast', 'conv'):
+                    rv = rv[2]
+                assoc.add((tuple(sorted(lists[-1])), rv))
+        want = {(tuple(sorted(TRUE_W)), ('bool', True)), (tuple(sorted(FALSE_W)), ('bool', False))}
+        ctx.check(assoc == want, 'R2', 'parse_bool: yes/on/true/1 give true, no/off/false/0 give false', where(pb[0]), 'word list -> value: %s' % sorted((a, ex.pretty(b)) for a, b in assoc), key='R2|parse_bool|values')
     else:
         ctx.unrecognised('R2', 'parse_bool: %d definitions' % len(pb))
     pi = [f for f in P.fns.values() if 'ConfigType<int>::parse' in f['q'] and f.get('blocks')]
@@ -139,6 +156,25 @@ def run(ctx):
             sh.add((tuple(lo), tuple(hi), p.exit))
         good = any(s[0] == (True,) and s[2] == 'throw' for s in sh) and any(s[1] == (False,) and s[2] == 'throw' for s in sh) and all(s[2] != 'return' or (s[0] == (False,) and s[1] == (True,)) for s in sh)
         ctx.check(good, 'R2', 'ConfigType<int>::parse throws below INT_MIN and above INT_MAX', where(pi[0]), 'path shapes %s' % sorted(sh, key=repr), key='R2|ConfigType<int>::parse|range')
+        # the value returned is the parsed one: parse_long(value) itself, only converted
+        pv = lib.parm_i(pi[0], 0)
+        okv = True
+        nret = 0
+        for p in v.paths():
+            if p.exit not in ('return', 'end'):
+                continue
+            evs = v.path_events(p)
+            pl = [e for e in evs if e.kind == 'assign' and e.rhs[0] == 'call' and isinstance(e.rhs[1], str) and e.rhs[1].endswith('parse_long') and e.rhs[3] == (pv,)]
+            ret = [e for e in evs if e.kind == 'return' and e.val is not None]
+            if not ret:
+                continue
+            nret += 1
+            rv = ret[-1].val
+            while rv[0] in ('cast', 'conv'):
+                rv = rv[2]
+            okv = okv and ((bool(pl) and rv == pl[0].lhs and len([e for e in evs if e.kind in ('assign', 'incdec') and e.lhs == pl[0].lhs]) == 1) or
+                           (rv[0] == 'call' and isinstance(rv[1], str) and rv[1].endswith('parse_long') and rv[3] == (pv,)))
+        ctx.check(okv and nret >= 1, 'R2', 'ConfigType<int>::parse returns parse_long(value) unchanged (converted to int)', where(pi[0]), '%d returning path(s)' % nret, key='R2|ConfigType<int>::parse|value')
     else:
         ctx.unrecognised('R2', 'ConfigType<int>::parse: %d definitions' % len(pi))
     gd = P.fn(NS + 'Config::get_dict_element')
